@@ -2,6 +2,7 @@ import Driver.Pure
 import Driver.TableSuite
 import Driver.B62Suite
 import Driver.CoreSuite
+import Driver.RotSuite
 /-
   vpmodel: reads lines `op<TAB>implementation observation`, prints `model observation<TAB>spec verdict`.
 -/
@@ -10,6 +11,7 @@ open Driver
 structure DState where
   table : TableSt := {}
   core : CoreSt := {}
+  rot : RotSt := {}
 
 def stepLine (st : DState) (line : String) : DState × String :=
   let parts := line.splitOn "\t"
@@ -28,6 +30,9 @@ def stepLine (st : DState) (line : String) : DState × String :=
   | none =>
   match coreStep st.core toks implObs with
   | some (cs, m, s) => ({ st with core := cs }, m ++ "\t" ++ s)
+  | none =>
+  match rotStep st.rot toks implObs with
+  | some (rs, m, s) => ({ st with rot := rs }, m ++ "\t" ++ s)
   | none => (st, "bad-op\t-")
 
 partial def loop (h : IO.FS.Stream) (out : IO.FS.Stream) (st : DState) : IO Unit := do
